@@ -1748,7 +1748,7 @@ Qed.
 Lemma step_inv : forall s l, Inv s -> ok_label E s l -> Inv (STEP s l).
 Proof.
   intros s l [Hwf [Hml Hn]] [Htr Hnr].
-  destruct l as [net bc ac repl paths | net | net emit_ | src b | src rs | | | | ].
+  destruct l as [net bc ac repl paths | net | net emit_ | src b | src rs | | | | | ].
   - (* RibSet *)
     cbn [step]. destruct Htr as [Hts Hmk].
     destruct (rib_set_inv (s_llgr s) s (net, bc, ac, repl, paths) eq_refl Hwf Hn Hts)
@@ -1832,6 +1832,9 @@ Proof.
                          (fun d H => H) G2 G3 H5) as [p' [Hs [He2 [Hp2 Hc2]]]].
     exists R. cbn [n_chan n_emap n_ptx]. rewrite Hch, Hs. cbn [sink_ptx].
     split; [|split; [|split; [|split]]]; auto. constructor.
+  - (* Unregister *)
+    destruct s as [R fl n]. cbn [s_rib s_llgr s_nbr step] in *.
+    unfold with_nbr. split; [|split]; cbn [s_rib s_llgr s_nbr nbr0 n_reg]; auto. discriminate.
 Qed.
 
 Notation RUN := (run_from E ByNet false max aptx vis pol).
